@@ -4,10 +4,80 @@ import Hoot.Driver.Text
 
 structure Sess where
   flow : Option Flow := none
+  call : Option (String × CallSt) := none   -- single-call API: (state name, call)
   hack : Bool := true
   full : Bool := false
 
-def Sess.gone (s : Sess) : Sess := { s with flow := none }
+def Sess.gone (s : Sess) : Sess := { s with flow := none, call := none }
+
+def showFault : Fault → String
+  | .api e => s!"fault api:{errKindName e}"
+  | .panic _ => "fault panic"
+
+def showReqHead (used : Nat) (r : ReqHead) : String :=
+  s!"preq {used} {toHex r.method} {r.version}" ++ showHdrs r.fields
+
+/-- the standalone parsers (stateless ops) -/
+def statelessOp (ws : List String) : Option String :=
+  match ws with
+  | ["parse-resp", n, h] => n.toNat?.map fun n =>
+      match tryParseResponse n (unhex h) with
+      | .ok none => "none"
+      | .ok (some (used, r)) => s!"presp {used} {r.status} {r.version}" ++ showHdrs r.fields
+      | .error f => showFault f
+  | ["parse-partial", n, h] => n.toNat?.map fun n =>
+      match tryParsePartial n (unhex h) with
+      | .ok none => "none"
+      | .ok (some r) => s!"ppartial {r.status} {r.version}" ++ showHdrs r.fields
+      | .error f => showFault f
+  | ["parse-req", n, h] => n.toNat?.map fun n =>
+      match tryParseRequest n (unhex h) with
+      | .ok none => "none"
+      | .ok (some (used, r)) => showReqHead used r
+      | .error f => showFault f
+  | _ => none
+
+/-- single-call API ops on a `CallSt`; returns (new session call, result text) -/
+def callOp (hack full : Bool) (kind : String) (c : CallSt) (ws : List String) : Option (Option (String × CallSt) × String) :=
+  let bytesRes := fun (n : Nat) (out : Bytes) => s!"bytes {n} {toHexOut full out}"
+  match kind, ws with
+  | "callNoBody", ["cwrite", cap] => cap.toNat?.map fun cap =>
+      match c.writeNoBody cap with
+      | (c1, .ok out) => (some (kind, c1), bytesRes 0 out)
+      | (c1, .error (.panic _)) => (none, "fault panic")
+      | (c1, .error f) => (some (kind, c1), showFault f)
+  | "callNoBody", ["cfinished"] => some (some (kind, c), s!"bool {!c.phase.isPrelude}")
+  | "callBody", ["cfinished"] => some (some (kind, c), s!"bool {c.writer.ended}")
+  | "callRecvResponse", ["cfinished"] => some (some (kind, c), s!"bool {c.reader.isSome}")
+  | "callNoBody", ["cinto"] | "callBody", ["cinto"] =>
+      if !c.writer.ended then some (none, "fault api:UnfinishedRequest")
+      else some (some ("callRecvResponse", { c with phase := .recvResponse }), "state callRecvResponse")
+  | "callBody", ["cbwrite", i, cap] => cap.toNat?.map fun cap =>
+      match c.writeBody (unhex i) cap with
+      | (c1, .ok (n, out)) => (some (kind, c1), bytesRes n out)
+      | (_, .error (.panic _)) => (none, "fault panic")
+      | (c1, .error f) => (some (kind, c1), showFault f)
+  | "callRecvResponse", ["cresp", w] =>
+      match callTryResponse hack c (unhex w) with
+      | (c1, .ok none) => some (some (kind, c1), "resp 0 none")
+      | (c1, .ok (some (used, r))) => some (some (kind, c1), s!"resp {used} {r.status} {r.version}" ++ showHdrs r.fields)
+      | (_, .error (.panic _)) => some (none, "fault panic")
+      | (c1, .error f) => some (some (kind, c1), showFault f)
+  | "callRecvResponse", ["cbody"] =>
+      match c.reader with
+      | none => some (none, "fault api:IncompleteResponse")
+      | some .noBody => some (none, "none")
+      | some _ => some (some ("callRecvBody", { c with phase := .recvBody }), "state callRecvBody")
+  | "callRecvBody", ["cread", w, cap] => cap.toNat?.map fun cap =>
+      match c.read (unhex w) cap with
+      | (c1, .ok (n, out)) => (some (kind, c1), bytesRes n out)
+      | (_, .error (.panic _)) => (none, "fault panic")
+      | (c1, .error f) => (some (kind, c1), showFault f)
+  | "callRecvBody", ["cended"] =>
+      match c.reader with
+      | some rd => some (some (kind, c), s!"bool {readerEnded rd}")
+      | none => some (none, "fault panic")
+  | _, _ => none
 
 def canText (fl : Flow) : String :=
   match fl.st with
@@ -43,11 +113,24 @@ def stepLine (s : Sess) (l : String) : Sess × String :=
   else
     let opText := (l.splitOn " => ").head!
     let ws := opText.splitOn " "
+    let curState := match s.flow, s.call with
+      | some fl, _ => stName fl.st | none, some (k, _) => k | none, none => "gone"
+    match statelessOp ws with
+    | some r => (s, s!"{opText} => {r} @{curState}")
+    | none =>
     match ws with
     | "new" :: m :: v :: u :: _ :: rest =>
       match parseMethod m, parseVersion v, parseUri u with
       | some m', some v', some u' =>
-        ({ s with flow := some (Flow.new m' v' u' (pairsOf rest)) }, s!"{opText} => ok @prepare")
+        ({ s with flow := some (Flow.new m' v' u' (pairsOf rest)), call := none }, s!"{opText} => ok @prepare")
+      | _, _, _ => (s.gone, s!"{opText} => bad-new @gone")
+    | "cnew" :: kind :: m :: v :: u :: _ :: rest =>
+      match parseMethod m, parseVersion v, parseUri u with
+      | some m', some v', some u' =>
+        let c : CallSt := { req := { method := m', version := v', uri := u', orig := pairsOf rest },
+                            writer := if kind == "body" then BodyWriter.newChunked else BodyWriter.newNone }
+        let k := if kind == "body" then "callBody" else "callNoBody"
+        ({ s with flow := none, call := some (k, c) }, s!"{opText} => ok @{k}")
       | _, _, _ => (s.gone, s!"{opText} => bad-new @gone")
     | ["follow", pol] =>
       match s.flow with
@@ -117,5 +200,11 @@ def stepLine (s : Sess) (l : String) : Sess × String :=
         let can := if notOffered then "" else can
         (if gone then s.gone else { s with flow := some fl' },
          s!"{opText} => {showRes s.full r}{can} @{if gone then "gone" else stName fl'.st}")
-      | none, some _ => (s, s!"{opText} => str not-offered @gone")
-      | _, none => (s, s!"{opText} => bad-op @{match s.flow with | some fl => stName fl.st | none => "gone"}")
+      | none, some _ => (s, s!"{opText} => str not-offered @{curState}")
+      | _, none =>
+        match s.call with
+        | some (kind, c) =>
+          (match callOp s.hack s.full kind c ws with
+           | some (nc, r) => ({ s with call := nc }, s!"{opText} => {r} @{match nc with | some (k, _) => k | none => "gone"}")
+           | none => (s, s!"{opText} => str not-offered @{kind}"))
+        | none => (s, s!"{opText} => str not-offered @{curState}")
